@@ -62,6 +62,12 @@ def main():
             results[name] = {'property': pid, 'applied': True, 'exit': r.returncode, 'violations': lines, 'replay_kinds': kinds,
                              'no_failing_input': any('no-failing-input-found' in l for l in lines), 'seconds': round(time.time() - t0),
                              'stderr_tail': r.stderr[-600:]}
+            # the change may really break a neighbouring property (meta "also_check"): run that check too
+            for other in meta.get('also_check', []):
+                r2 = subprocess.run(['timeout', '3000', './check', other, '--tier', 'quick'], cwd=HERE, capture_output=True, text=True, env=env)
+                l2 = [l for l in r2.stdout.split('\n') if l.startswith('VIOLATION')]
+                results[name].setdefault('also', {})[other] = {'exit': r2.returncode, 'violations': l2,
+                                                               'no_failing_input': any('no-failing-input-found' in l for l in l2)}
             verdict = 'CAUGHT' if r.returncode == 1 and lines else ('MISSED' if r.returncode == 0 else f'ERROR rc={r.returncode}')
             print(f'{name:28s} {pid}  {verdict:8s} {kinds}  {round(time.time() - t0)}s')
         finally:
